@@ -43,8 +43,15 @@ def handle (args : List String) (impl : String) : Verdict :=
     let xs := ((hS.drop 2).toString.splitOn ";").filterMap (fun ev => match ev.splitOn "," with
       | ["X", _, _, _, st] => some st
       | _ => none)
+    -- a case whose instance was stopped in the middle of the load: `stopAt` is the logical time the stop began;
+    -- a request answered after it may have failed (the instance is going down) — before it, none may
+    let stopAt : Option Nat := match (flags.splitOn " stopAt=") with
+      | [_, t] => t.toNat?
+      | _ => none
+    let late := fun (resp : Nat) => match stopAt with | some t => resp > t | none => false
     -- (3) every request answered, and answered without error
-    let answered := ws.all (·.ok) && rs.all (fun r => !r.failed) && vs.all id && xs.all (· == "refused")
+    let answered := ws.all (fun w => w.ok || late w.resp) && rs.all (fun r => !r.failed || late r.resp) &&
+      (stopAt.isSome || vs.all id) && xs.all (· == "refused")
     -- (1) a read sees every write acknowledged before it was issued, (1') and nothing from the future
     let readsOk := rs.all (fun r =>
       (List.range 4).all (fun i =>
@@ -75,11 +82,14 @@ def handle (args : List String) (impl : String) : Verdict :=
             let rows : List Store.Point :=
               if i == 3 then (eptsOf st (strBytes (if n == "a" then "G" else "a")) (strBytes n)).filter (fun p => p.type == strBytes "role")
               else (ptsOf st (strBytes n)).filter (fun p => p.type == strBytes "v" && p.key == strBytes (toString i))
+            -- a write that was sent but not acknowledged because the instance was going down may or may not be there
+            let attempted := (ws.filter (fun w => w.node == n && identOf w == i && !w.ok)).map (·.time)
             match want, rows with
             | none, [] => true
-            | some t, [p] => p.time == t
+            | none, [p] => attempted.contains p.time
+            | some t, [p] => p.time == t || (p.time > t && attempted.contains p.time)
             | _, _ => false))
-    let flagsOk := flags == "stop=returned reopen=ok"
+    let flagsOk := (flags.splitOn " stopAt=").headD "" == "stop=returned reopen=ok"
     let ok := answered && readsOk && monotone && finalOk && flagsOk
     { model := if ok then impl else "violation", spec := some ok,
       note := if ok then s!"info=writes:{ws.length},reads:{rs.length}" else if !answered then "class=request-unanswered-or-failed" else if !readsOk then "class=stale-or-phantom-read"
